@@ -15,7 +15,8 @@ META = {
              ' Also: big-endian inputs, 64-bit integers next to float32 ro'
              'unding midpoints beyond 2^53; slices: narrowing conversions '
              'as the slice converter applies them.'
-             " Round 12: results handed out earlier are compared again after the transformer converted further arrays of the same shape."),
+             " Round 12: results handed out earlier are compared again after the transformer converted further arrays of the same shape."
+             " Round 16: sub-check type_grid (every input type x output type x form x copy mode with the pair's boundary values)."),
     "trusted_base": ["vlib/refs/dtype_ref.py (Fraction arithmetic)"],
     "assumptions": ["finite values only; float64 values beyond the float32 "
                     "range are not offered to a float32 target"],
@@ -223,6 +224,73 @@ def check_case(ctx, case):
     return nontrivial
 
 
+def anchor_values(in_dtype, out):
+    """The boundary values of the pair (type limits of both types, ties,
+    2^24 / 2^53 / 2^63 neighbours), as the random strategy uses them."""
+    if is_float(in_dtype):
+        if out == "float32":
+            vals = [0.0, 1.0, -1.0, 0.5, 1e-30, -1e-30, F32_MAX, -F32_MAX,
+                    16777216.0, 16777217.0, 0.1, 1 / 3]
+        else:
+            lo, hi = dtype_ref.INT_RANGE[out]
+            vals = [0.0, 0.5, 1.5, 2.5, -0.5, -1.0, 0.4, 0.6, 1e-30,
+                    hi - 1.0, hi - 0.5, float(hi), hi + 0.5, hi + 1.0,
+                    hi * 2.0, -0.49999, 254.5, 255.5, 65534.5, 65535.5,
+                    2.0 ** 53, 2.0 ** 53 + 2, 2.0 ** 63, 3e38, -3e38]
+            if in_dtype == "float64":
+                vals += [1e300, -1e300]
+        out_vals = []
+        for x in vals:
+            if in_dtype == "float32":
+                with np.errstate(over="ignore"):
+                    x = float(np.float32(x))
+                if not np.isfinite(x):
+                    x = F32_MAX if x > 0 else -F32_MAX
+            if out == "float32":
+                x = max(-F32_MAX, min(F32_MAX, x))
+            out_vals.append(x)
+        return out_vals
+    lo, hi = dtype_ref.INT_RANGE[in_dtype]
+    anchors = {lo, lo + 1, -1, 0, 1, hi - 1, hi, 2 ** 53 - 1, 2 ** 53,
+               2 ** 53 + 1, 2 ** 24 + 1, 2 ** 63, 2 ** 63 - 1,
+               2 ** 62 + 1, -(2 ** 53) - 1}
+    if out != "float32":
+        olo, ohi = dtype_ref.INT_RANGE[out]
+        anchors |= {ohi - 1, ohi, ohi + 1, olo - 1, olo}
+    return sorted(a for a in anchors if lo <= a <= hi)
+
+
+def run_grid(ctx, n):
+    """Every (input type, output type, array form, copy mode) with the
+    boundary values of the pair: 10 x 5 x 10 x 2 combinations."""
+    cases_ = []
+    for in_dtype in IN_DTYPES:
+        for out in OUT_TYPES:
+            allv = anchor_values(in_dtype, out)
+            # (values in the domain of listed finding F17 get vectors of
+            # their own: a vector is excluded as a whole)
+            groups = [[v for v in allv if not f17(in_dtype, out, v)],
+                      [v for v in allv if f17(in_dtype, out, v)]]
+            for form in FORMS:
+                for preserve in (True, False):
+                    for vals in groups:
+                        # (the transformer sees arrays of up to 8 values)
+                        for k in range(0, len(vals), 8):
+                            cases_.append({
+                                "in": in_dtype, "out": out,
+                                "values": vals[k:k + 8], "form": form,
+                                "preserve": preserve})
+
+    def check(ctx, case):
+        nt = check_case(ctx, case)
+        if nt is None:
+            ctx.count("excluded_F17")
+            return
+        ctx.record(case, nt, ["%s->%s" % (case["in"], case["out"]),
+                              "form." + case["form"]])
+    ctx.run_grid(cases_, check)
+
+
 def run(ctx, n):
     def check(ctx, case):
         nt = check_case(ctx, case)
@@ -360,6 +428,8 @@ def replay_slices(ctx, case):
 
 
 SUBS = [Sub("convert", run, replay_any, quick=12000, thorough=1250000),
+        Sub("type_grid", run_grid, replay_any, quick=1, thorough=1, shards=14,
+            sweep=True),
         Sub("slices", run_slices, replay_slices, quick=60, thorough=3750,
             shards=4),
         Sub("large", run_large, replay_any, quick=120, thorough=7500,
